@@ -195,3 +195,40 @@ def check(ctx, rep: Report):
     if not ok:
         rep.violate(Violation("C05.EQV", "C05.EQV|setattr-vs-with_attr", f"obj.a = v and with_a(v, _inplace=True) no longer share one code path: {sorted(a ^ b)[:2] or 'prepare_attr_value is not the first step'}",
                               "", "SetAttrMethod.__setattr__"))
+
+
+    # ---- RESET: del / reset_<a> / reset restore the default a new instance of type(self) would get (shared with C08.DEL)
+    rep.rules["C05.RESET"] = "__delattr__ re-installs lookup_default_value(type(self)) (fresh; honours factories and subclass overrides)"
+    from .c08 import del_worker
+    r = pmap(del_worker, [0])[0]
+    rep.functions |= set(r["functions"])
+    rep.evaluations += len(r["rows"])
+    bad = []
+    nset = 0
+    for row in r["rows"]:
+        for how, val, prov, site in row["stores"]:
+            if how == "rawset":
+                nset += 1
+                if "FRESH" not in prov and val not in row["imm"] and "USER" not in prov:
+                    bad.append(f"re-installs `{val}` ({'+'.join(prov)})")
+    if nset == 0:
+        bad.append("no default is re-installed at all")
+    if not r["lookup_called"]:
+        bad.append("the default does not come from Attr.lookup_default_value(type(self)): default factories / subclass overrides are ignored")
+    rep.oblige("C05.RESET", "DelAttrMethod.__delattr__", not bad, "; ".join(sorted(set(bad))))
+    for b in sorted(set(bad)):
+        rep.violate(Violation("C05.RESET", f"C05.RESET|{b[:70]}", f"__delattr__ (del / reset_<attr> / reset): {b}", "", "DelAttrMethod.__delattr__"))
+
+    # ---- FWD at the funnel: mutate_attr(inplace=False) writes onto and returns a fresh copy for every real value
+    for frozen in (False, True):
+        rr = ret_worker(("value", Sym(("value",), {ARG}, tags={"nonsentinel"}), frozen))
+        bad = []
+        for row in rr["rows"]:
+            if row["kind"] == "ok" and ("FRESH" not in row["ret_prov"] or row["ret"] == "self"):
+                bad.append(f"returns {row['ret']} for a real value with inplace=False")
+            for how, tgt, prov in row["writes"]:
+                if prov != ("FRESH",):
+                    bad.append(f"{how} on {tgt} {prov} with inplace=False")
+        rep.oblige("C05.FWD", f"mutate_attr[inplace=False,frozen={frozen}]", not bad, "; ".join(sorted(set(bad))[:2]))
+        for b in sorted(set(bad)):
+            rep.violate(Violation("C05.FWD", f"C05.FWD|mutate_attr|frozen={frozen}|{b[:60]}", f"mutate_attr: {b}: with_<a>(v) must yield a new instance carrying the change", "", "mutate_attr"))
